@@ -302,6 +302,9 @@ def check(ctx):
     ctx.rule("R10", "a reply is returned only if one was delivered: the long-lived packet consumer re-queues what its handler holds after EVERY datagram - the handler must assign the extracted identifiers and content for every datagram it handles, a malformed one included (else the previous reply's content is queued a second time and a request the spa never answered takes it as its answer) (C07.R4's rule on the packet handler borrowed)")
     from .c07 import packet_fields_fresh as _pff
     _pff(ctx.borrowed("R10", "C07"), repo, "R4")
+    ctx.rule("R11", "a reply only if one was delivered - also for the ping: every request waiter accepts only datagrams that START with one of its verbs (can_handle interpreted on truncated verbs, the empty datagram, bare tags): a waiter that takes a fragment reports a reply nobody sent, and the answered-ping evidence that opens every gate is refreshed by a spa that is silent (C07.R8's probes borrowed)")
+    from .c07 import acceptance_by_complete_verb as _abcv6
+    _abcv6(ctx.borrowed("R11", "C07"), repo, "R8")
     ctx.rule("R7", "a reply is only served to the request it was sent for: a reply that arrives after its request has given up is removed by the discard consumer after one polling interval also while the request lock is held (retry pause, queued callers) - otherwise it sits at the head and is handed to the next request of that verb at once (C07's discard-consumer model borrowed)")
     from .c07 import discard_consumer_model
     discard_consumer_model(ctx.borrowed("R7", "C07"), repo, "R7")
